@@ -62,12 +62,26 @@ def c01_random(ctx, n_core, n_ext):
     # released and reused
     urls = ["http://10.0.0.9:8000/auth", "http://10.0.0.8:8000/auth", "http://10.0.0.7:8000/auth", "http://10.0.0.6:8000/auth"]
     for i in range(max(30, n_ext // 10)):
-        cmx = U.op_cm({"auth-proxy": "_front__auth:14415-1441%d" % rng.choice([5, 6, 6, 7])})
-        mk = lambda slot: U.op_ing(slot, {1: "t1", 2: "t9", 3: "t2"}[slot], dict({"auth-url": rng.choice(urls)}, **({"auth-external-placement": "frontend"} if rng.random() < 0.4 else {})))
+        size = rng.choice([1, 2, 2, 3])
+        cmx = U.op_cm({"auth-proxy": "_front__auth:14415-1441%d" % (4 + size)})
+        live = {}
+
+        def mk(slot):
+            # the range is large enough for the targets in use (who is denied when it is not depends on the order of the requests,
+            # in a fresh controller as well); it gets exhausted by the binds partial syncs leave behind
+            others = {u for k, u in live.items() if k != slot}
+            cand = [u for u in urls if len(others | {u}) <= size]
+            live[slot] = rng.choice(cand)
+            return U.op_ing(slot, {1: "t1", 2: "t9", 3: "t2"}[slot],
+                            dict({"auth-url": live[slot]}, **({"auth-external-placement": "frontend"} if rng.random() < 0.4 else {})))
         steps = [dict(ops=U.base_ops() + [U.op_sec("c2", "crt:c2"), cmx, mk(1), mk(2)])]
         for k in range(3 + rng.randrange(3)):
-            r = rng.random()
-            steps.append(dict(ops=[mk(rng.choice([1, 2, 3]))] if r < 0.75 else [U.op_del("ing", "d/i%d" % rng.choice([1, 2, 3]))]))
+            if rng.random() < 0.75:
+                steps.append(dict(ops=[mk(rng.choice([1, 2, 3]))]))
+            else:
+                slot = rng.choice([1, 2, 3])
+                live.pop(slot, None)
+                steps.append(dict(ops=[U.op_del("ing", "d/i%d" % slot)]))
         hs.append(dict(id="ax-%d" % i, opt=dict(shards=0, watchwithoutclass=True), steps=steps))
     # TCP services of the tcp-services ConfigMap
     hs += [U.random_tcpcm_history(rng, "rm-%d" % i, steps=4 + rng.randrange(3)) for i in range(max(60, n_ext // 5))]
